@@ -53,7 +53,7 @@ def _mk(W, lt, op, tag, zero_tilt=False, lam=None):
 
 
 def cfg_step(tier, seed):
-    out = [{'w': w, 'op': 'ptype:' + p} for w in PT[:3] for p in PT] + [{'w': w, 'op': c} for w in PT[:3] for c in CLASSES]
+    out = [{'w': w, 'op': 'ptype:' + p} for w in PT[:3] for p in PT] + [{'w': w, 'op': c} for w in PT[:3] for c in CLASSES + ('Tilt(ptype=none-object)',)]
     return out, len(out), True
 
 
@@ -69,9 +69,15 @@ def run_step(W, cfg):
     lt = W.lentil
     table, classes = ptable.mul_table(), ptable.class_ptypes()
     w = _wave(W, lt, cfg['w'])
-    w = w if cfg['w'] == 'none' else w        # type set by the constructor
-    plane = _mk(W, lt, cfg['op'], 0)
-    ptype = _expected_plane_type(cfg['op'], classes)
+    if cfg['op'] == 'Tilt(ptype=none-object)':
+        plane = lt.Tilt(x=W.real('tx0'), y=W.real('ty0'), ptype=lt.none)
+        ptype = 'none'
+    else:
+        plane = _mk(W, lt, cfg['op'], 0)
+        ptype = _expected_plane_type(cfg['op'], classes)
+    if table[(cfg['w'], ptype)] is None:
+        # a refused product must be refused with TypeError whatever else is inconsistent: give the plane a different pixel scale
+        plane._pixelscale = (W.real('qr', pos=True), W.real('qc', pos=True))
     W.ob_true('plane class has its documented ptype', str(plane.ptype) == ptype)
     want = table[(cfg['w'], ptype)]
     before = (list(w.data), w.ptype, w.shape, [f.data for f in w.data])
